@@ -2,7 +2,7 @@
 import itertools
 
 from .. import impl
-from ..common import exc_name, has_unmodelled
+from ..common import enc_val, exc_name, has_unmodelled
 from ..runner import Outcome
 
 LEVEL = "proof"
@@ -40,6 +40,71 @@ def gen_op(rng, names=NAMES, idxs=(0, 1, 2, 3, 5, -1, None, None, None)):
     return {"k": "del", "key": key}
 
 
+# ----------------------------------------------------------------- stored columns of every type and value shape
+# The property quantifies over edit histories, whatever the stored columns are: every column class of the library, holding
+# every shape of value - in particular the ones that are false in a boolean context (None, "", 0, False, 0.0, [], ()) and
+# each class's own null value (what build() makes of the empty text).
+FALSY = [None, "", 0, False, 0.0, [], ()]
+OTHER_VALUES = ["x", 1, ["a"], [0], True]
+BUILD_TEXTS = ["", "x", "0", "1;2", "+", "Yes"]
+_SHAPES = []
+
+
+def column_of(spec):
+    """The column object an op stores (or addresses by): a plain MafColumnRecord with a text value, or - "cls" given - an
+    instance of that column class made through its constructor ("val") or its build() factory ("text")."""
+    from maflib.column import MafColumnRecord
+    import maflib.column_types as CT
+    if "cls" not in spec:
+        return MafColumnRecord(spec["key"], spec.get("value"), column_index=spec.get("index"))
+    cls = getattr(CT, spec["cls"])
+    if "text" in spec:
+        return cls.build(name=spec["key"], value=spec["text"], column_index=spec.get("index"))
+    return cls(spec["key"], impl.dec_val(spec["val"]), spec.get("index"))
+
+
+def column_shapes():
+    """Every (column class, value) the library lets one construct and print as a single field: [falsy-valued, others]."""
+    import inspect
+    import maflib.column_types as CT
+    from maflib.column import MafColumnRecord
+    if _SHAPES:
+        return _SHAPES
+    falsy, others = [], []
+    for name, cls in sorted(inspect.getmembers(CT, inspect.isclass)):
+        if not issubclass(cls, MafColumnRecord) or inspect.isabstract(cls) or name.startswith("_"):
+            continue
+        cands = [{"cls": name, "val": enc_val(v)} for v in FALSY + OTHER_VALUES] + [{"cls": name, "text": t} for t in BUILD_TEXTS]
+        for sp in cands:
+            try:
+                col = column_of(dict(sp, key="k", index=None))
+                text = str(col)
+                if "\t" in text or "\n" in text or "\r" in text:
+                    continue
+                is_falsy = not col.value
+            except Exception:  # noqa
+                continue
+            (falsy if is_falsy else others).append(sp)
+    _SHAPES.extend([falsy, others])
+    return _SHAPES
+
+
+TYPED_NAMES = ["a", "b", "c", ""]
+
+
+def gen_typed_op(rng, names=None, idxs=None):
+    """An op of gen_op over the names a, b, c and the empty name, whose column (and the column used as a key) is of any class / value shape."""
+    falsy, others = column_shapes()
+    kw = {} if idxs is None else {"idxs": idxs}
+    o = gen_op(rng, names=names if names is not None else TYPED_NAMES if rng.random() < 0.15 else NAMES, **kw)
+    if "col" in o and rng.random() < 0.75:
+        sp = rng.choice(falsy) if rng.random() < 0.7 else rng.choice(others)
+        o["col"] = dict(o["col"], **sp)
+    if o.get("key", {}).get("t") == "col" and rng.random() < 0.4:
+        o["key"] = dict(o["key"], **rng.choice(falsy))
+    return o
+
+
 def all_ops_small():
     """Every op over 2 names x indexes {None,0,1,2,-1} x all addressing forms (thorough tier)."""
     ops = []
@@ -66,7 +131,7 @@ def py_key(k, cols):
     if t == "int":
         return k["v"]
     if t == "col":
-        return MafColumnRecord(k["key"], None)
+        return column_of(k) if "cls" in k else MafColumnRecord(k["key"], None)
     if t == "none":
         return None
     return 3.5
@@ -97,8 +162,6 @@ def coherence(rec):
                     bad.append("lookup by name %r and by index %d disagree" % (c.key, i))
             except KeyError:
                 bad.append("column at index %d (%r) is unknown by name" % (i, c.key))
-    for name in [k for k in rec.keys() if k is not None]:
-        pass
     d = rec._MafRecord__columns_dict
     for name, c in d.items():
         ci = c.column_index
@@ -109,27 +172,87 @@ def coherence(rec):
         bad.append("len %d != highest occupied index + 1 (%d)" % (n, want_len))
     if list(rec) != [(rec[i].key if rec[i] is not None else None) for i in range(n)]:
         bad.append("iteration does not list names in index order")
+    # the other views the mapping interface derives from iteration and lookup
+    for i in occupied:
+        c = rec[i]
+        try:
+            if c.key not in rec or rec[c] is not c:
+                bad.append("column at index %d (%r) is not found by membership test / by column object" % (i, c.key))
+        except KeyError:
+            bad.append("column at index %d (%r) is unknown by column object" % (i, c.key))
+    vals = list(rec.values())
+    if len(vals) != n or any(vals[i] is not rec[i] for i in range(n)):
+        bad.append("values() does not list the stored columns in index order")
+    cv = rec.column_values()
+    if len(cv) != n or any(cv[i] is not (rec[i].value if rec[i] is not None else None) for i in range(n)):
+        bad.append("column_values() does not list the stored values in index order")
     fields = str(rec).split("\t") if n else []
     if len(fields) != n:
         bad.append("rendering has %d fields for %d positions" % (len(fields), n))
     return bad
 
 
-def run_history(ops):
-    from maflib.column import MafColumnRecord
+def start_names(start):
+    return list(start["names"]) if "names" in start else list(impl.scheme_by_annotation(start["scheme"]).column_names())
+
+
+def start_record(start):
+    """The record a history starts from: empty, or (start given) parsed from a line under column names or a built-in layout."""
     from maflib.record import MafRecord
-    rec = MafRecord()
+    if not start:
+        return MafRecord()
+    kw = {"column_names": list(start["names"])} if "names" in start else {"scheme": impl.scheme_by_annotation(start["scheme"])}
+    return MafRecord.from_line(start["line"], validation_stringency=impl.MODES["Silent"], **kw)
+
+
+def prefix_ops(start):
+    """What parsing a fully valid line amounts to, as edits of an empty record (this is what the model is given)."""
+    if not start:
+        return []
+    return [{"k": "set", "key": {"t": "name", "v": n}, "col": {"key": n, "index": i, "value": ""}} for i, n in enumerate(start_names(start))]
+
+
+def fully_valid(start):
+    """Every field of the start line builds and validates on its own (then parsing stores every column, which is what
+    prefix_ops tells the model); judged through the column API, not through from_line."""
+    from maflib.column import MafColumnRecord
+    names = start_names(start)
+    fields = start["line"].split("\t")
+    if len(fields) != len(names) or len(set(names)) != len(names):
+        return False
+    sch = impl.scheme_by_annotation(start["scheme"]) if "scheme" in start else None
+    try:
+        for i, (n, f) in enumerate(zip(names, fields)):
+            cls = sch.column_class(n) if sch is not None else None
+            col = cls.build(name=n, value=f, column_index=i) if cls is not None else MafColumnRecord(key=n, value=f, column_index=i)
+            if col.validate(scheme=sch):
+                return False
+    except Exception:  # noqa
+        return False
+    return True
+
+
+def run_history(ops, start=None):
+    """Returns (steps, problems, initial observation); a problem of the starting record itself is reported at step -1."""
+    rec = start_record(start)
     oids = {}
+    offset = len(prefix_ops(start))
+    for i, c in enumerate(rec._MafRecord__columns_list):
+        if c is not None:
+            oids[id(c)] = i
     keep = []
     steps = []
-    problems = []
+    problems = [(-1, b) for b in coherence(rec)]
+    initial = observe(rec, oids)
     for n, o in enumerate(ops):
+        if problems:
+            break
         before = observe(rec, oids)
         exc = None
         try:
             if o["k"] in ("set", "add"):
-                c = MafColumnRecord(o["col"]["key"], o["col"]["value"], column_index=o["col"]["index"])
-                oids[id(c)] = n
+                c = column_of(o["col"])
+                oids[id(c)] = offset + n
                 keep.append(c)
                 if o["k"] == "add":
                     rec.add(c)
@@ -145,25 +268,58 @@ def run_history(ops):
             problems.append((n, "failed operation (%s) changed the record" % exc))
         for b in coherence(rec):
             problems.append((n, b))
-        if problems:
-            break
-    return steps, problems
+    return steps, problems, initial
 
 
-def eval_history(h):
-    """One edit history on the implementation + the property's oracle.  Returns (steps, failures)."""
-    steps, problems = run_history(h)
+def eval_history(h, start=None):
+    """One edit history on the implementation + the property's oracle.  Returns (steps, failures, initial observation)."""
+    steps, problems, initial = run_history(h, start)
     failures = []
     if problems:
         n, what = problems[0]
-        failures.append({"what": what, "kind": "incoherent" if "failed operation" not in what else "failed-op-changed",
-                         "history": h[:n + 1], "step": n, "all": [p[1] for p in problems][:5]})
-    return steps, failures
+        f = {"what": what, "kind": "incoherent" if "failed operation" not in what else "failed-op-changed",
+             "history": h[:n + 1], "step": n, "all": [p[1] for p in problems][:5]}
+        if start:
+            f["start"] = start
+        failures.append(f)
+    return steps, failures, initial
+
+
+# ----------------------------------------------------------------- histories that start from a parsed record
+PARSED_NAMES = ["a", "b", "c", "d", "e"]
+
+
+def gen_start(rng):
+    """A fully valid line under plain column names, or under the basic layout with some of its list / nullable columns empty."""
+    if rng.random() < 0.75:
+        names = PARSED_NAMES[:rng.randrange(1, 6)]
+        rng.shuffle(names)
+        return {"names": names, "line": "\t".join(rng.choice(["", "", "x", "0", "v w"]) for _ in names)}, NAMES, None
+    from .. import sortcases as SC
+    ann = "gdc-1.0.0"
+    sch = impl.scheme_by_annotation(ann)
+    names = sch.column_names()
+    fields = list(SC._base_fields(ann, rng))
+    for i, n in enumerate(names):
+        if rng.random() < 0.3:
+            try:
+                col = sch.column_class(n).build(name=n, value="", column_index=i)
+                if not col.validate(scheme=sch):
+                    fields[i] = ""
+            except Exception:  # noqa
+                pass
+    lists = [n for n in names if "Sequence" in sch.column_class(n).__name__]
+    pool = [names[0], rng.choice(lists) if lists else names[1], names[rng.randrange(len(names))], "a"]
+    idxs = (0, 1, 2, 3, len(names) - 1, len(names), -1, None, None, None, names.index(pool[1]), names.index(pool[2]))
+    return {"scheme": ann, "line": "\t".join(fields)}, pool, idxs
 
 
 def run(ctx):
     out = Outcome()
     out.rule = ("random edit histories (length 1-8) over 3 names, explicit/implicit/negative/gap indexes and every addressing form; "
+                "a second family stores (and addresses by) columns of every column class of maflib.column_types with every value shape - None, '', 0, False, 0.0, [], (), each class's "
+                "build('') null value, and ordinary values - and uses the empty column name; a third family starts from a record parsed from a line (plain column names with empty / short fields, "
+                "or the basic layout with some list / nullable columns empty) instead of an empty record; "
                 "thorough adds all histories of length <= 3 over a 44-op alphabet; non-trivial = history with >= 2 successful ops; distinct histories")
     rng = ctx.rng("hist")
     hists = []
@@ -175,38 +331,73 @@ def run(ctx):
             for h in itertools.product(alpha, repeat=n):
                 hists.append(list(h))
         out.extra["exhaustive_small_scope"] = "all histories of length <= 3 over %d ops" % len(alpha)
-    reqs = [{"op": "rec.edit", "ops": h} for h in hists]
+    # stored columns of every column class and value shape (the record must not care what a column holds)
+    rng_t = ctx.rng("hist", "typed")
+    for _ in range(ctx.scale(800, 10000)):
+        hists.append([gen_typed_op(rng_t) for _ in range(rng_t.randrange(1, 9))])
+    falsy, others = column_shapes()
+    out.extra["column_shapes"] = "%d (class, falsy value) and %d (class, other value) pairs over %d column classes" % (
+        len(falsy), len(others), len({sp["cls"] for sp in falsy + others}))
+    cases = [(h, None) for h in hists]
+    # histories on a record that was parsed from a line (the model is given the equivalent insertions first)
+    rng_p = ctx.rng("hist", "parsed")
+    for _ in range(ctx.scale(240, 3000)):
+        start, names, idxs = gen_start(rng_p)
+        cases.append(([gen_typed_op(rng_p, names, idxs) if rng_p.random() < 0.5 else gen_op(rng_p, names, **({} if idxs is None else {"idxs": idxs}))
+                       for _ in range(rng_p.randrange(0, 7))], start))
+    reqs = [{"op": "rec.edit", "ops": prefix_ops(start) + h} for h, start in cases]
     mo = ctx.driver.run(reqs)
-    for h, m in zip(hists, mo):
+    for (h, start), m in zip(cases, mo):
         out.evaluations += 1
-        steps, failures = eval_history(h)
+        steps, failures, initial = eval_history(h, start)
         ok_ops = sum(1 for s in steps if s["exc"] is None)
         if ok_ops >= 2:
-            out.nontrivial.add(repr(h))
+            out.nontrivial.add(repr((h, start)) if start else repr(h))
+        for o, st in zip(h, steps):
+            if "cls" in o.get("col", {}) and st["exc"] is None:
+                out.distribution["stored typed column"] += 1
+        if start:
+            out.distribution["start:parsed (%s)" % ("names" if "names" in start else "layout")] += 1
         out.distribution["ops_ok"] += ok_ops
         out.distribution["ops_failed"] += len(steps) - ok_ops
         for s in steps:
             if s["exc"]:
                 out.distribution["exc:" + s["exc"]] += 1
-        msteps = m["steps"][:len(steps)]
-        if has_unmodelled(msteps):
+        np_ = len(prefix_ops(start))
+        msteps = m["steps"][np_:np_ + len(steps)]
+        minit = m["steps"][np_ - 1]["obs"] if np_ else None
+        if has_unmodelled(msteps) or has_unmodelled(minit) or (start and not fully_valid(start)):
             out.unmodelled += 1
+        elif np_ and minit != initial:
+            out.disagreements.append({"op": "rec.edit", "start": start, "history": [], "model": minit, "impl": initial})
         elif msteps != steps:
             k = next(i for i, (a, b) in enumerate(zip(msteps, steps)) if a != b)
-            out.disagreements.append({"op": "rec.edit", "history": h[:k + 1], "model": msteps[k], "impl": steps[k]})
+            d = {"op": "rec.edit", "history": h[:k + 1], "model": msteps[k], "impl": steps[k]}
+            if start:
+                d["start"] = start
+            out.disagreements.append(d)
         out.failures += failures
         if len(out.samples) < 4 and ok_ops >= 3:
             out.sample({"history": h})
     return out
 
 
+def show_col(c, index=True):
+    idx = ", column_index=%r" % c.get("index") if index else ""
+    if "cls" not in c:
+        return "MafColumnRecord(%r, %r%s)" % (c["key"], c.get("value"), idx)
+    if "text" in c:
+        return "%s.build(name=%r, value=%r%s)" % (c["cls"], c["key"], c["text"], idx)
+    return "%s(%r, %r%s)" % (c["cls"], c["key"], impl.dec_val(c["val"]), idx)
+
+
 def show_op(o):
     def key(k):
         t = k["t"]
-        return repr(k["v"]) if t in ("name", "int") else "MafColumnRecord(%r)" % k["key"] if t == "col" else "None" if t == "none" else "3.5"
+        return repr(k["v"]) if t in ("name", "int") else show_col(dict(k, value=None), index=False) if t == "col" else "None" if t == "none" else "3.5"
     if o["k"] == "del":
         return "del rec[%s]" % key(o["key"])
-    col = "MafColumnRecord(%r, %r, column_index=%r)" % (o["col"]["key"], o["col"]["value"], o["col"]["index"])
+    col = show_col(o["col"])
     return "rec.add(%s)" % col if o["k"] == "add" else "rec[%s] = %s" % (key(o["key"]), col)
 
 
@@ -218,13 +409,19 @@ def show_obs(obs):
 def replay_case(ctx, failure):
     """Re-run the stored edit history on the current implementation; the failures it produces now ([] = property holds)."""
     h = failure.get("history")
-    if not isinstance(h, list) or not h or any(not isinstance(o, dict) or "k" not in o for o in h):
+    if not isinstance(h, list) or (not h and not failure.get("start")) or any(not isinstance(o, dict) or "k" not in o for o in h):
         return None
-    steps, failures = eval_history(h)
+    start = failure.get("start")
+    steps, failures, initial = eval_history(h, start)
     msteps = None
     if getattr(ctx, "driver_ok", True) and ctx.driver.available():
-        msteps = ctx.driver.run([{"op": "rec.edit", "ops": h}])[0]["steps"]
-    print("replay C15: a new MafRecord edited by %d operation(s)" % len(h))
+        msteps = ctx.driver.run([{"op": "rec.edit", "ops": prefix_ops(start) + h}])[0]["steps"][len(prefix_ops(start)):]
+    if start:
+        print("replay C15: MafRecord.from_line(%r, %s) edited by %d operation(s)" % (
+            start["line"], "column_names=%r" % start["names"] if "names" in start else "scheme=<%s>" % start["scheme"], len(h)))
+        print("     parsed record: %s" % show_obs(initial))
+    else:
+        print("replay C15: a new MafRecord edited by %d operation(s)" % len(h))
     for n, o in enumerate(h):
         if n >= len(steps):
             print("  %d. %s   (not executed: the history is cut at the first problem)" % (n, show_op(o)))
@@ -241,17 +438,18 @@ def replay_case(ctx, failure):
             else:
                 print("     model: DIFFERS: %s; record now: %s" % ("raises " + m["exc"] if m.get("exc") else "ok", show_obs(m["obs"]) if isinstance(m.get("obs"), dict) else m.get("obs")))
     for f in failures:
-        print("  oracle (after step %d): %s" % (f["step"], "; ".join(f["all"])))
+        print("  oracle (%s): %s" % ("after step %d" % f["step"] if f["step"] >= 0 else "the parsed record, before any edit", "; ".join(f["all"])))
     return failures
 
 
 def shrink(ctx, f):
     """Delta-debug the history to a minimal failing one."""
     h = f["history"]
+    start = f.get("start")
 
     def fails(hh):
         try:
-            _s, p = run_history(hh)
+            _s, p, _i = run_history(hh, start)
         except Exception:  # noqa
             return False
         return bool(p)
@@ -260,11 +458,11 @@ def shrink(ctx, f):
         changed = False
         for i in range(len(h)):
             hh = h[:i] + h[i + 1:]
-            if hh and fails(hh):
+            if (hh or start) and fails(hh):
                 h = hh
                 changed = True
                 break
-    _s, again = eval_history(h)
+    _s, again, _i = eval_history(h, start)
     if not again:
         return f
     return dict(f, shrunk_from=len(f["history"]), **again[0])
